@@ -341,6 +341,12 @@ func (l *ledgers) onStarted(ni *nodeInc) {
 	if l.run.stop {
 		return
 	}
+	if ni.node.tampered {
+		// a second instance had opened (and possibly repaired) this directory while it was being
+		// served: what the node finds at its next start is not the library's doing
+		l.run.reach("restart_on_tampered_directory")
+		return
+	}
 	// C10: the log a node restarts with is contiguous with its latest snapshot
 	prev, last, snap := r.log.PrevIndex(), r.lastLogIndex, r.snaps.index
 	if ni.n > 0 && ni.node.lastCrashAtIO {
@@ -396,6 +402,15 @@ func (l *ledgers) onServeReturned(ni *nodeInc) { l.onServeReturned2(ni) }
 // onStartFailed: C10 — a node restarted on the directory a crash left behind must start.
 func (l *ledgers) onStartFailed(ni *nodeInc, what string, err error) {
 	if ni.dead {
+		return
+	}
+	if ni.node.tampered {
+		// see onStarted: a second instance is or was busy in this directory (it may hold the lock
+		// that SetIdentity and Serve take); the harness tries again later
+		l.run.reach("start_failed_on_tampered_directory")
+		if ni.node.inc == ni {
+			ni.node.inc = nil
+		}
 		return
 	}
 	if ni.diskErrs > 0 {
